@@ -1,6 +1,6 @@
 # Human-written metadata per check for MANIFEST.json.
 ENGINES = [
-    {"name": "meshx", "path": "/verif/kit (world.go, node.go, conn.go)", "serves_properties": ["C01", "C06", "C07", "C08", "C09"],
+    {"name": "meshx", "path": "/verif/kit (world.go, node.go, conn.go)", "serves_properties": ["C01", "C06", "C07", "C08", "C09", "C10"],
      "kind_free_text": "event-level explorer over a world of real routers (real state/peering/switch/router modules per node) wired by virtual links or adversary-owned connections; one event = one synchronous call into the real handlers, virtual time via testing/synctest"},
     {"name": "seqx", "path": "/verif/kit (bfs.go) + /verif/checks/*", "serves_properties": ["C01", "C02", "C03", "C11", "C12", "C17", "C19"],
      "kind_free_text": "sequential bounded-exhaustive / explicit-state explorer over the real objects (fresh object + replay per path, canonical state hash)"},
@@ -72,6 +72,13 @@ META = {
         "design_ref": "DESIGN.md §2 C09",
         "text": "Exhaustive tier: for every connected labelled graph on 2 and 3 routers (x label-size assignments, router-info sizes 0/450/1300 B, clock tick) with every router announcing as announceRouter does - and for 4-router graphs for every single announcement (origin x Send call) - ALL delivery orders of in-flight frames are explored breadth-first, each state reached by replaying the delivery path on a fresh world of real routers, deduplicated on (all routing tables, canonical nonce-free in-flight multiset). Every emitted frame is checked against the flooding rules (each (announcement, path) at most once, never to the origin, never back over the receive link, never to a router in the hop list, no repeated router) and every quiescent state against reach: exact destination route at every router for every announcing router, and walking the route's forward labels through the real GetLinkByLabel maps arrives there; a frame dropped by the (mirrored) link writer is reported. Larger meshes (lines, rings, stars, trees, grids, pseudo-random graphs up to 8 quick / 16 thorough routers) run under four deterministic delivery disciplines; a byte-by-byte router-info size sweep across the pooled-buffer tiers runs on short lines.",
         "note": "All-orders exploration is limited to n<=3 (all announcing; the triangle with all three announcing only in the thorough tier under a state cap) and single announcements for n=4; beyond that the delivery disciplines are fixed, enumerated and not exhaustive - stated in the evidence. Deliveries are atomic (sequential world).",
+    },
+    "C10": {
+        "engine": "meshx",
+        "technique": "exhaustive enumeration of forwarding states (next-hop assignments, switch blocks, TTLs) and of router pairs in converged worlds of real routers, with every link crossing checked",
+        "design_ref": "DESIGN.md §2 C10",
+        "text": "(a) Converged meshes built by real gossip (all connected graphs on 2-3 routers, most/all on 4, lines/rings/stars/trees/grids up to 8 quick / 16 thorough routers, 1- and 2-byte labels): for every ordered pair a routed ping-pong must complete and no router other than A and B may originate a frame; network traffic between every pair of tun-equipped routers across relays with and without a tun interface must arrive exactly once at B's interface and nowhere else. (b) On complete graphs of 2-4 routers every assignment of 'next hop towards D' per router (all cycles, dead ends) x initial TTL {0,1,2,3,32,255} x message class is installed and a routed frame injected; label-switched frames with ten switch-block shapes (valid, cyclic, too short for the return label, zero-first, dangling, non-terminated, huge varint, full 255) x label sizes x TTLs are injected on three graphs. Every link crossing of the injected frame is logged and checked: TTL strictly decreasing and never 0 on the wire, crossings <= TTL0-1, all bytes outside TTL / flow flags / switch block preserved.",
+        "note": "Transit relaying is unauthenticated by design, so injected frames carry no valid seal; a unicast frame has one frame in flight at a time, so the sequential world covers its delivery order completely; adversarial tables are limited to 4 routers.",
     },
     "C11": {
         "engine": "seqx",
